@@ -701,6 +701,28 @@ func init() {
 	intrinsics["vSPCertBytes"] = func(in *Interp, fn *ssa.Function, a []Value) Value {
 		return intrinsics["vBytes"](in, nil, []Value{smt.StrLit("spcert")})
 	}
+	intrinsics["vDigestHashIs"] = func(in *Interp, fn *ssa.Function, a []Value) Value {
+		k := in.concreteInt(termArg(in, a[0]), "digest index")
+		r, _ := in.Ghost[fmt.Sprintf("digest:%d", k)].(*digestRec)
+		return smt.Bool(r != nil && r.Hash == fmt.Sprintf("hash%d", termArg(in, a[1]).U))
+	}
+	// vDigestCanonIs(k, c): digest k used canonicaliser c (nil: the library default, i.e. not a caller object)
+	intrinsics["vDigestCanonIs"] = func(in *Interp, fn *ssa.Function, a []Value) Value {
+		k := in.concreteInt(termArg(in, a[0]), "digest index")
+		r, _ := in.Ghost[fmt.Sprintf("digest:%d", k)].(*digestRec)
+		if r == nil {
+			return smt.False
+		}
+		c, _ := a[1].(*Iface)
+		if c == nil || c.T == nil {
+			return smt.Bool(strings.Contains(r.Canon, "goxmldsig"))
+		}
+		want := types.TypeString(c.T, nil)
+		if p, ok := c.V.(*Ptr); ok && p != nil {
+			want += fmt.Sprintf("#obj%d", p.Obj.ID)
+		}
+		return smt.Bool(r.Canon == want)
+	}
 	intrinsics["vDigestCalls"] = func(in *Interp, fn *ssa.Function, a []Value) Value {
 		return smt.BV(uint64(intGhost(in, "digest.calls")), 64)
 	}
